@@ -52,6 +52,37 @@ def TermCursor.apply (c : TermCursor) : TermCall → TermCursor
 
 def TermCursor.applyAll (c : TermCursor) (calls : List TermCall) : TermCursor := calls.foldl TermCursor.apply c
 
+/-! ### the library's own mock terminal (src/mockterm.c), as far as the cursor goes
+
+The engine's second configuration runs the window layer on `tickit_mockterm_new` and reads the cursor back through
+`tickit_term_getctl_int` and `tickit_mockterm_get_position`.  `mtd_goto_abs` clamps the position to the screen,
+`mtd_setctl_int` stores `!!value` for CURSORVIS and CURSORBLINK and the raw value for CURSORSHAPE. -/
+
+/-- `BOUND(var, min, max)`: `if(var < min) var = min; if(var > max) var = max`. -/
+def bound (v lo hi : Int) : Int :=
+  if (if v < lo then lo else v) > hi then hi else (if v < lo then lo else v)
+
+/-- `!!value`. -/
+def notNot (v : Int) : Int := if v ≠ 0 then 1 else 0
+
+/-- The cursor record of a fresh mock terminal (`tickit_mockterm_new`). -/
+def TermCursor.mockInit : TermCursor := { vis := 0, line := -1, col := -1, shape := 0, blink := 0 }
+
+/-- A call as the mock terminal of `lines × cols` cells executes (and logs) it. -/
+def TermCall.onMock (lines cols : Int) : TermCall → TermCall
+  | .goto l k => .goto (bound l 0 (lines - 1)) (bound k 0 (cols - 1))
+  | .vis v => .vis (notNot v)
+  | .shape s => .shape s
+  | .blink b => .blink (notNot b)
+
+/-- The mock terminal's cursor after a list of calls. -/
+def TermCursor.applyAllMock (lines cols : Int) (c : TermCursor) (calls : List TermCall) : TermCursor :=
+  c.applyAll (calls.map (TermCall.onMock lines cols))
+
+/-- `tickit_mockterm_resize` as far as the cursor goes: the position is clamped to the new screen. -/
+def TermCursor.mockResize (lines cols : Int) (c : TermCursor) : TermCursor :=
+  { c with line := bound c.line 0 (lines - 1), col := bound c.col 0 (cols - 1) }
+
 /-- Which of the three repairs proposed for the defects found by this engine (`fixes/C15_*.patch`) the source carries.
     The extractor reads this off the working tree (`Gen/WinFocusSrc.lean`); the unchanged tree is `Fixes.none`.
     * `hiddenRoot`   — `_do_restore` also requires the window the walk stopped at to be visible, and hiding the
@@ -68,11 +99,14 @@ structure Fixes where
   flushSkipsHiddenRoot : Bool := false
   /-- (C02, not ours) `tickit_window_flush` intersects every damage rectangle with the root window's current area -/
   flushClipsDamage : Bool := false
+  /-- `on_term_resize` requests a restore after it has resized the root window (fixes/C15_resize_restore.patch) -/
+  resizeRestore : Bool := false
 deriving Repr, DecidableEq, Inhabited
 
 def Fixes.none : Fixes := {}
 def Fixes.all : Fixes :=
-  { hiddenRoot := true, chainRestore := true, focusEvents := true, flushSkipsHiddenRoot := true, flushClipsDamage := true }
+  { hiddenRoot := true, chainRestore := true, focusEvents := true, flushSkipsHiddenRoot := true, flushClipsDamage := true,
+    resizeRestore := true }
 
 /-- Enough fuel for any walk along `parent` or `focused_child` in a tree without cycles. -/
 def treeFuel (t : Tree) : Nat := t.wins.size + 1
@@ -214,6 +248,27 @@ def resize (t : Tree) (win : Id) (lines cols : Int) : Res Tree := do
   let w ← get t win
   let (t, _) ← setGeometry t win { w.rect with lines := lines, cols := cols }
   pure t
+
+/-! ### the terminal's resize event -/
+
+/-- `if(info->lines > oldlines) tickit_window_expose(win, &(TickitRect){ oldlines, 0, info->lines - oldlines, info->cols })`. -/
+def resizeExposeLines (t : Tree) (oldlines lines cols : Int) : Res Tree :=
+  if lines > oldlines then expose t (treeFuel t) 0 (some ⟨oldlines, 0, lines - oldlines, cols⟩) else pure t
+
+/-- `if(info->cols > oldcols) tickit_window_expose(win, &(TickitRect){ 0, oldcols, oldlines, info->cols - oldcols })`
+    (`oldlines`, as in the source). -/
+def resizeExposeCols (t : Tree) (oldlines oldcols cols : Int) : Res Tree :=
+  if cols > oldcols then expose t (treeFuel t) 0 (some ⟨0, oldcols, oldlines, cols - oldcols⟩) else pure t
+
+/-- `on_term_resize`, the root window's handler of `TICKIT_TERM_ON_RESIZE` (fired by `tickit_term_set_size` when the
+    size changes): the root window is resized and the area gained is exposed; nothing is done about an area lost.
+    Repaired (`resizeRestore`): `_request_restore(root)` at the end. -/
+def termResize (fx : Fixes) (t : Tree) (lines cols : Int) : Res Tree := do
+  let w ← get t 0
+  let t1 ← resize t 0 lines cols
+  let t2 ← resizeExposeLines t1 w.rect.lines lines cols
+  let t3 ← resizeExposeCols t2 w.rect.lines w.rect.cols cols
+  pure (if fx.resizeRestore then requestRestore t3 else t3)
 
 /-! ### show / hide / close: the shared tree operations, plus the repair `chainRestore` -/
 
